@@ -36,3 +36,18 @@ def bad_kind(k, kind):
     if kind == "Stop":
         raise Stop(k)
     return k * 3
+
+
+def slow_or_fail(k, seconds):
+    """Task 0 fails at once; every other task is still running long after (a sibling that has not completed)."""
+    import time
+    if k == 0:
+        raise ValueError(0)
+    time.sleep(seconds)
+    return -1
+
+
+def sleeper(k, seconds):
+    import time
+    time.sleep(seconds)
+    return k
